@@ -33,6 +33,7 @@ static void mon_flush(void) {
 static int exp_start[NM], eval_ok[NM];
 static int exp_stop_run[NM], exp_stop_other[NM], opt_stop[NM];   /* expected on_stop calls: module was RUNNING / was PAUSED / callback optional */
 static int stop_notif_opt;
+static int stop_by_teardown;
 static int teardown_busy;                /* m_ctx_deregister in progress: modules are stopped and become ZOMBIE one by one, in any order */
 static int dereg_busy[NM];               /* m_mod_deregister of this module in progress */
 static void teardown_zombie(int s);               /* set by cb_enter(CB_STOP): is the MOD_STOPPED notification of this stop optional? */
@@ -69,11 +70,12 @@ static void cb_enter(int s, int kind) {
         if (ON(R_CB)) vfail("CB.pair", "CB.pair|start-unexpected", "on_start called for %s (state %s) without a start, resume-from-stop or successful evaluation", m->name, SN[m->st]);
         break;
     case CB_STOP:
-        if (teardown_busy && m->present) {
-            int was = m->st; mon_stop_effects(s); stop_notif_opt = was != S_RUNNING; break;
-        }
+        stop_by_teardown = 0;
         if (exp_stop_run[s] > 0) { exp_stop_run[s]--; stop_notif_opt = 0; break; }
         if (exp_stop_other[s] > 0) { exp_stop_other[s]--; stop_notif_opt = 1; break; }
+        if (teardown_busy && m->present) {       /* the context teardown reached this module */
+            int was = m->st; mon_stop_effects(s); stop_notif_opt = was != S_RUNNING; stop_by_teardown = 1; break;
+        }
         if (opt_stop[s] > 0) { opt_stop[s]--; stop_notif_opt = 1; break; }
         /* poison pill taking effect inside the receive loop */
         if (m->st == S_RUNNING) {
@@ -130,12 +132,12 @@ static void w_stop(m_mod_t *self) {
     int s = slot_of(self); if (s < 0) vfail("CB.ghost", "CB.ghost", "on_stop with unknown handle");
     cb_depth++; int ps = in_cb_slot, pk = in_cb_kind; in_cb_slot = s; in_cb_kind = CB_STOP;
     cb_enter(s, CB_STOP);
-    int notif_opt = stop_notif_opt;
+    int notif_opt = stop_notif_opt, by_teardown = stop_by_teardown;
     run_armed(s, CB_STOP);
     mon_flush();
     /* the library announces the stop right after this callback, unless the module was deregistered inside it */
     if (MD[s].st != S_ZOMBIE && MD[s].present) post_push(POST_STOPPED, s, notif_opt);
-    if (teardown_busy && MD[s].present) { mon_flush(); teardown_zombie(s); }
+    if (teardown_busy && by_teardown && MD[s].present) { mon_flush(); teardown_zombie(s); }
     in_cb_slot = ps; in_cb_kind = pk; cb_depth--;
 }
 
@@ -182,6 +184,7 @@ static void deliver_ps(int s, const m_evt_t *e, int idx_in_inv, int *is_trigger_
     for (int i = p - 1; i >= 0; i--) if (m->mb[i].optional && m->mb[i].kind == 0) { mb_remove(s, i); p--; }
     pend_t pe = m->mb[p]; mb_remove(s, p);
     msg_t *g = &MSG[pe.msg];
+    if (pe.after_pill && ON(R_PILL)) vfail("PS.pill", "PS.pill|late", "%s received message #%d which was sent to it after a poison pill", m->name, pe.msg);
     if (ps->sender) {      /* the sender stays a valid object (ZOMBIE if deregistered meanwhile) for as long as its message is undelivered */
         const char *nm = m_mod_name(ps->sender);
         if (!nm || strcmp(nm, MNAME[g->sender])) vfail("ST.zombie", "ST.zombie|sender-name", "sender handle of a delivered message does not answer its name");
